@@ -32,7 +32,7 @@ type DepositTree struct {
 
 func (t *DepositTree) Add(d common.DepositData) {
 	t.Data = append(t.Data, d)
-	t.Leaves = append(t.Leaves, d.HashTreeRoot(treeHashFn))
+	t.Leaves = append(t.Leaves, d.HashTreeRoot(hFn()))
 }
 
 func (t *DepositTree) Count() uint64 { return uint64(len(t.Leaves)) }
